@@ -13,6 +13,7 @@ def run(spec, args, kwargs):
     sys.setrecursionlimit(10000)
     h = engine.build(spec)
     harness.DETAIL.clear()
+    harness.CONCRETE[0] = True
     out = dict(reproduced=False)
     if spec.get('kind') == 'direct':
         # direct (z3x) obligations provide their own concrete replay
